@@ -30,7 +30,7 @@ def make_program(rng, m, obs):
     senders = [rng.randrange(m) for _ in range(n_in)]
     plan = []
     for _ in range(rng.randint(2, 6)):
-        plan.append(rng.choice(['mul', 'cmp', 'prod', 'nested', 'barrier', 'throttle', 'dangle_out', 'mod', 'peek', 'sleep', 'raiser']))
+        plan.append(rng.choice(['mul', 'cmp', 'prod', 'nested', 'barrier', 'throttle', 'dangle_out', 'mod', 'peek', 'sleep', 'raiser', 'call_raises']))
     if 'barrier' not in plan and rng.random() < 0.7:
         plan.insert(rng.randrange(len(plan) + 1), 'barrier')
     style = rng.choice(['explicit', 'context'])
@@ -52,6 +52,13 @@ def make_program(rng, m, obs):
             # a None-typed coroutine (like peek) that fails inside its task: mpyc tolerates it, the program carries on
             await mpc.output(x)
             raise ValueError('deliberate failure inside a None-typed MPyC coroutine')
+        @mpc.coroutine
+        async def checks_args(x, n):
+            # a coroutine that validates its arguments before declaring its return type: the call itself raises, the program handles it
+            if n < 0:
+                raise ValueError('negative count')
+            await mpc.returnType(secint)
+            return x * n
         xs = [mpc.input(secint(v if pid == s else 0), senders=s) for v, s in zip(vals, senders)]
         acc = xs[0]
         dangling = []
@@ -69,6 +76,16 @@ def make_program(rng, m, obs):
                 dangling.append(a % 3)
             elif op == 'raiser':
                 raiser(a * b)
+            elif op == 'call_raises':
+                try:
+                    checks_args(a, -1)
+                except ValueError:
+                    pass
+                try:
+                    mpc.indexOf([], a)                  # library call that refuses its arguments at call time (documented ValueError)
+                except ValueError:
+                    pass
+                dangling.append(checks_args(a * b, 2) * b)
             elif op == 'peek':
                 mpc.peek(a * b)
             elif op == 'dangle_out':
